@@ -220,55 +220,55 @@ Proof.
     all: try (eval_closed_eqb; cbn iota).
     + (* destination unreachable *)
       change ScmpUnknownMessage_CODE_RNG with ScmpDestinationUnreachable_CODE_RNG.
-      rewrite (RF ScmpDestinationUnreachable_CODE_RNG cd 8) by (first [cbn [In]; tauto|vm_compute; reflexivity|closed_le|(change (2 ^ r_width ScmpDestinationUnreachable_CODE_RNG) with 256; assumption)]).
+      rewrite (RF ScmpDestinationUnreachable_CODE_RNG cd 8 ltac:(cbn [In]; tauto) ltac:(vm_compute; reflexivity) ltac:(closed_le) ltac:(change (2 ^ r_width ScmpDestinationUnreachable_CODE_RNG) with 256; assumption) ltac:(closed_le)).
       cbn [obind]. rewrite Tl. change (scmp_fixed_size SCMP_T_DestinationUnreachable) with false. cbn iota.
       unfold n, hdr. cbn [scmp_size scmp_type_of]. rewrite canon_cut. reflexivity.
-    + rewrite (RF ScmpPacketTooBig_MTU_RNG mtu 16) by (first [cbn [In]; tauto|vm_compute; reflexivity|closed_le|(change (2 ^ r_width ScmpPacketTooBig_MTU_RNG) with 65536; assumption)]).
+    + rewrite (RF ScmpPacketTooBig_MTU_RNG mtu 16 ltac:(cbn [In]; tauto) ltac:(vm_compute; reflexivity) ltac:(closed_le) ltac:(change (2 ^ r_width ScmpPacketTooBig_MTU_RNG) with 65536; assumption) ltac:(closed_le)).
       cbn [obind]. rewrite Tl. change (scmp_fixed_size SCMP_T_PacketTooBig) with false. cbn iota.
       unfold n, hdr. cbn [scmp_size scmp_type_of]. rewrite canon_cut. reflexivity.
     + change ScmpUnknownMessage_CODE_RNG with ScmpParameterProblem_CODE_RNG.
-      rewrite (RF ScmpParameterProblem_CODE_RNG cd 8) by (first [cbn [In]; tauto|vm_compute; reflexivity|closed_le|(change (2 ^ r_width ScmpParameterProblem_CODE_RNG) with 256; assumption)]).
+      rewrite (RF ScmpParameterProblem_CODE_RNG cd 8 ltac:(cbn [In]; tauto) ltac:(vm_compute; reflexivity) ltac:(closed_le) ltac:(change (2 ^ r_width ScmpParameterProblem_CODE_RNG) with 256; assumption) ltac:(closed_le)).
       cbn [obind].
-      rewrite (RF ScmpParameterProblem_POINTER_RNG ptr 16) by (first [cbn [In]; tauto|vm_compute; reflexivity|closed_le|(change (2 ^ r_width ScmpParameterProblem_POINTER_RNG) with 65536; assumption)]).
+      rewrite (RF ScmpParameterProblem_POINTER_RNG ptr 16 ltac:(cbn [In]; tauto) ltac:(vm_compute; reflexivity) ltac:(closed_le) ltac:(change (2 ^ r_width ScmpParameterProblem_POINTER_RNG) with 65536; assumption) ltac:(closed_le)).
       cbn [obind]. rewrite Tl. change (scmp_fixed_size SCMP_T_ParameterProblem) with false. cbn iota.
       unfold n, hdr. cbn [scmp_size scmp_type_of]. rewrite canon_cut. reflexivity.
-    + rewrite (RF ScmpExternalInterfaceDown_ISD_AS_RNG ia 64) by (first [cbn [In]; tauto|vm_compute; reflexivity|closed_le|(change (r_width ScmpExternalInterfaceDown_ISD_AS_RNG) with 64; assumption)]).
+    + rewrite (RF ScmpExternalInterfaceDown_ISD_AS_RNG ia 64 ltac:(cbn [In]; tauto) ltac:(vm_compute; reflexivity) ltac:(closed_le) ltac:(change (r_width ScmpExternalInterfaceDown_ISD_AS_RNG) with 64; assumption) ltac:(closed_le)).
       cbn [obind].
-      rewrite (RF ScmpExternalInterfaceDown_INTERFACE_ID_RNG ifid 64) by (first [cbn [In]; tauto|vm_compute; reflexivity|closed_le|(change (2 ^ r_width ScmpExternalInterfaceDown_INTERFACE_ID_RNG) with 18446744073709551616; lia)]).
+      rewrite (RF ScmpExternalInterfaceDown_INTERFACE_ID_RNG ifid 64 ltac:(cbn [In]; tauto) ltac:(vm_compute; reflexivity) ltac:(closed_le) ltac:(change (2 ^ r_width ScmpExternalInterfaceDown_INTERFACE_ID_RNG) with 18446744073709551616; lia) ltac:(closed_le)).
       cbn [obind]. rewrite Tl. change (scmp_fixed_size SCMP_T_ExternalInterfaceDown) with false. cbn iota.
       rewrite (trunc_id 16 ifid) by (change (2 ^ 16) with 65536; assumption).
       unfold n, hdr. cbn [scmp_size scmp_type_of]. rewrite canon_cut. reflexivity.
-    + rewrite (RF ScmpInternalConnectivityDown_ISD_AS_RNG ia 64) by (first [cbn [In]; tauto|vm_compute; reflexivity|closed_le|(change (r_width ScmpInternalConnectivityDown_ISD_AS_RNG) with 64; assumption)]).
+    + rewrite (RF ScmpInternalConnectivityDown_ISD_AS_RNG ia 64 ltac:(cbn [In]; tauto) ltac:(vm_compute; reflexivity) ltac:(closed_le) ltac:(change (r_width ScmpInternalConnectivityDown_ISD_AS_RNG) with 64; assumption) ltac:(closed_le)).
       cbn [obind].
-      rewrite (RF ScmpInternalConnectivityDown_INGRESS_INTERFACE_ID_RNG ing 64) by (first [cbn [In]; tauto|vm_compute; reflexivity|closed_le|(change (2 ^ r_width ScmpInternalConnectivityDown_INGRESS_INTERFACE_ID_RNG) with 18446744073709551616; lia)]).
+      rewrite (RF ScmpInternalConnectivityDown_INGRESS_INTERFACE_ID_RNG ing 64 ltac:(cbn [In]; tauto) ltac:(vm_compute; reflexivity) ltac:(closed_le) ltac:(change (2 ^ r_width ScmpInternalConnectivityDown_INGRESS_INTERFACE_ID_RNG) with 18446744073709551616; lia) ltac:(closed_le)).
       cbn [obind].
-      rewrite (RF ScmpInternalConnectivityDown_EGRESS_INTERFACE_ID_RNG eg 64) by (first [cbn [In]; tauto|vm_compute; reflexivity|closed_le|(change (2 ^ r_width ScmpInternalConnectivityDown_EGRESS_INTERFACE_ID_RNG) with 18446744073709551616; lia)]).
+      rewrite (RF ScmpInternalConnectivityDown_EGRESS_INTERFACE_ID_RNG eg 64 ltac:(cbn [In]; tauto) ltac:(vm_compute; reflexivity) ltac:(closed_le) ltac:(change (2 ^ r_width ScmpInternalConnectivityDown_EGRESS_INTERFACE_ID_RNG) with 18446744073709551616; lia) ltac:(closed_le)).
       cbn [obind]. rewrite Tl. change (scmp_fixed_size SCMP_T_InternalConnectivityDown) with false. cbn iota.
       rewrite (trunc_id 16 ing), (trunc_id 16 eg) by (change (2 ^ 16) with 65536; assumption).
       unfold n, hdr. cbn [scmp_size scmp_type_of]. rewrite canon_cut. reflexivity.
-    + rewrite (RF ScmpEchoRequest_IDENTIFIER_RNG id 16) by (first [cbn [In]; tauto|vm_compute; reflexivity|closed_le|(change (2 ^ r_width ScmpEchoRequest_IDENTIFIER_RNG) with 65536; assumption)]).
+    + rewrite (RF ScmpEchoRequest_IDENTIFIER_RNG id 16 ltac:(cbn [In]; tauto) ltac:(vm_compute; reflexivity) ltac:(closed_le) ltac:(change (2 ^ r_width ScmpEchoRequest_IDENTIFIER_RNG) with 65536; assumption) ltac:(closed_le)).
       cbn [obind].
-      rewrite (RF ScmpEchoRequest_SEQUENCE_NUMBER_RNG sq 16) by (first [cbn [In]; tauto|vm_compute; reflexivity|closed_le|(change (2 ^ r_width ScmpEchoRequest_SEQUENCE_NUMBER_RNG) with 65536; assumption)]).
+      rewrite (RF ScmpEchoRequest_SEQUENCE_NUMBER_RNG sq 16 ltac:(cbn [In]; tauto) ltac:(vm_compute; reflexivity) ltac:(closed_le) ltac:(change (2 ^ r_width ScmpEchoRequest_SEQUENCE_NUMBER_RNG) with 65536; assumption) ltac:(closed_le)).
       cbn [obind]. rewrite Tl. change (scmp_fixed_size SCMP_T_EchoRequest) with false. cbn iota.
       unfold n, hdr. cbn [scmp_size scmp_type_of]. change (scmp_header_size SCMP_T_EchoRequest) with 8. unfold ScmpEchoRequest_HEADER_SIZE_BYTES.
       replace (N.to_nat (blen d + 8 - 8)) with (length d) by (unfold blen; lia). rewrite firstn_all. reflexivity.
-    + rewrite (RF ScmpEchoReply_IDENTIFIER_RNG id 16) by (first [cbn [In]; tauto|vm_compute; reflexivity|closed_le|(change (2 ^ r_width ScmpEchoReply_IDENTIFIER_RNG) with 65536; assumption)]).
+    + rewrite (RF ScmpEchoReply_IDENTIFIER_RNG id 16 ltac:(cbn [In]; tauto) ltac:(vm_compute; reflexivity) ltac:(closed_le) ltac:(change (2 ^ r_width ScmpEchoReply_IDENTIFIER_RNG) with 65536; assumption) ltac:(closed_le)).
       cbn [obind].
-      rewrite (RF ScmpEchoReply_SEQUENCE_NUMBER_RNG sq 16) by (first [cbn [In]; tauto|vm_compute; reflexivity|closed_le|(change (2 ^ r_width ScmpEchoReply_SEQUENCE_NUMBER_RNG) with 65536; assumption)]).
+      rewrite (RF ScmpEchoReply_SEQUENCE_NUMBER_RNG sq 16 ltac:(cbn [In]; tauto) ltac:(vm_compute; reflexivity) ltac:(closed_le) ltac:(change (2 ^ r_width ScmpEchoReply_SEQUENCE_NUMBER_RNG) with 65536; assumption) ltac:(closed_le)).
       cbn [obind]. rewrite Tl. change (scmp_fixed_size SCMP_T_EchoReply) with false. cbn iota.
       unfold n, hdr. cbn [scmp_size scmp_type_of]. change (scmp_header_size SCMP_T_EchoReply) with 8. unfold ScmpEchoReply_HEADER_SIZE_BYTES.
       replace (N.to_nat (blen d + 8 - 8)) with (length d) by (unfold blen; lia). rewrite firstn_all. reflexivity.
-    + rewrite (RF ScmpTracerouteRequest_IDENTIFIER_RNG id 16) by (first [cbn [In]; tauto|vm_compute; reflexivity|closed_le|(change (2 ^ r_width ScmpTracerouteRequest_IDENTIFIER_RNG) with 65536; assumption)]).
+    + rewrite (RF ScmpTracerouteRequest_IDENTIFIER_RNG id 16 ltac:(cbn [In]; tauto) ltac:(vm_compute; reflexivity) ltac:(closed_le) ltac:(change (2 ^ r_width ScmpTracerouteRequest_IDENTIFIER_RNG) with 65536; assumption) ltac:(closed_le)).
       cbn [obind].
-      rewrite (RF ScmpTracerouteRequest_SEQUENCE_NUMBER_RNG sq 16) by (first [cbn [In]; tauto|vm_compute; reflexivity|closed_le|(change (2 ^ r_width ScmpTracerouteRequest_SEQUENCE_NUMBER_RNG) with 65536; assumption)]).
+      rewrite (RF ScmpTracerouteRequest_SEQUENCE_NUMBER_RNG sq 16 ltac:(cbn [In]; tauto) ltac:(vm_compute; reflexivity) ltac:(closed_le) ltac:(change (2 ^ r_width ScmpTracerouteRequest_SEQUENCE_NUMBER_RNG) with 65536; assumption) ltac:(closed_le)).
       reflexivity.
-    + rewrite (RF ScmpTracerouteReply_IDENTIFIER_RNG id 16) by (first [cbn [In]; tauto|vm_compute; reflexivity|closed_le|(change (2 ^ r_width ScmpTracerouteReply_IDENTIFIER_RNG) with 65536; assumption)]).
+    + rewrite (RF ScmpTracerouteReply_IDENTIFIER_RNG id 16 ltac:(cbn [In]; tauto) ltac:(vm_compute; reflexivity) ltac:(closed_le) ltac:(change (2 ^ r_width ScmpTracerouteReply_IDENTIFIER_RNG) with 65536; assumption) ltac:(closed_le)).
       cbn [obind].
-      rewrite (RF ScmpTracerouteReply_SEQUENCE_NUMBER_RNG sq 16) by (first [cbn [In]; tauto|vm_compute; reflexivity|closed_le|(change (2 ^ r_width ScmpTracerouteReply_SEQUENCE_NUMBER_RNG) with 65536; assumption)]).
+      rewrite (RF ScmpTracerouteReply_SEQUENCE_NUMBER_RNG sq 16 ltac:(cbn [In]; tauto) ltac:(vm_compute; reflexivity) ltac:(closed_le) ltac:(change (2 ^ r_width ScmpTracerouteReply_SEQUENCE_NUMBER_RNG) with 65536; assumption) ltac:(closed_le)).
       cbn [obind].
-      rewrite (RF ScmpTracerouteReply_ISD_AS_RNG ia 64) by (first [cbn [In]; tauto|vm_compute; reflexivity|closed_le|(change (r_width ScmpTracerouteReply_ISD_AS_RNG) with 64; assumption)]).
+      rewrite (RF ScmpTracerouteReply_ISD_AS_RNG ia 64 ltac:(cbn [In]; tauto) ltac:(vm_compute; reflexivity) ltac:(closed_le) ltac:(change (r_width ScmpTracerouteReply_ISD_AS_RNG) with 64; assumption) ltac:(closed_le)).
       cbn [obind].
-      rewrite (RF ScmpTracerouteReply_INTERFACE_ID_RNG ifid 64) by (first [cbn [In]; tauto|vm_compute; reflexivity|closed_le|(change (2 ^ r_width ScmpTracerouteReply_INTERFACE_ID_RNG) with 18446744073709551616; lia)]).
+      rewrite (RF ScmpTracerouteReply_INTERFACE_ID_RNG ifid 64 ltac:(cbn [In]; tauto) ltac:(vm_compute; reflexivity) ltac:(closed_le) ltac:(change (2 ^ r_width ScmpTracerouteReply_INTERFACE_ID_RNG) with 18446744073709551616; lia) ltac:(closed_le)).
       cbn [obind]. rewrite (trunc_id 16 ifid) by (change (2 ^ 16) with 65536; assumption). reflexivity.
     + (* unknown type *)
       destruct Hu as (Hu8 & Hfx & Hk). cbn [scmp_type_of] in Hk, Hfx.
@@ -277,7 +277,7 @@ Proof.
       unfold SCMP_T_DestinationUnreachable, SCMP_T_PacketTooBig, SCMP_T_ParameterProblem, SCMP_T_ExternalInterfaceDown,
         SCMP_T_InternalConnectivityDown, SCMP_T_EchoRequest, SCMP_T_EchoReply, SCMP_T_TracerouteRequest, SCMP_T_TracerouteReply.
       rewrite K, K0, K1, K2, K3, K4, K5, K6, K7. cbn iota.
-      rewrite (RF ScmpUnknownMessage_CODE_RNG cd 8) by (first [cbn [In]; tauto|vm_compute; reflexivity|closed_le|(change (2 ^ r_width ScmpUnknownMessage_CODE_RNG) with 256; assumption)]).
+      rewrite (RF ScmpUnknownMessage_CODE_RNG cd 8 ltac:(cbn [In]; tauto) ltac:(vm_compute; reflexivity) ltac:(closed_le) ltac:(change (2 ^ r_width ScmpUnknownMessage_CODE_RNG) with 256; assumption) ltac:(closed_le)).
       cbn [obind]. rewrite Tl. rewrite Hfx.
       unfold n, hdr. cbn [scmp_size scmp_type_of]. cbn [scmp_type_of] in Hu8. unfold hdr in Hu8. rewrite Hu8. unfold ScmpUnknownMessage_HEADER_SIZE_BYTES.
       replace (N.to_nat (blen d + 8 - 8)) with (length d) by (unfold blen; lia). rewrite firstn_all. reflexivity.
